@@ -81,14 +81,29 @@ Usable(c) == c.ok /\ c.kem = KemX25519 /\ \E k \in DOMAIN c.suites : c.suites[k]
 PickCfg(list) == LET cs == ParseCfgList(list)
                      U == {k \in DOMAIN cs : Usable(cs[k])} IN
                  IF U = {} THEN BadCfg ELSE cs[CHOOSE k \in U : \A j \in U : k <= j]
+\* shapes of an ECHConfigList (the client must use the first usable entry, whatever surrounds it):
+\*   single           [usable]
+\*   two_usable       [usable, another usable one with another key and config_id]   (key rotation)
+\*   usable_skipped   [usable, unknown version, unsupported KEM]
+\*   skipped_usable   [unknown version, unsupported KEM, usable]
+ListShapes == <<"single", "two_usable", "usable_skipped", "skipped_usable">>
+ShapeSane(shape, cs) ==
+  CASE shape = "single" -> Len(cs) = 1 /\ Usable(cs[1])
+    [] shape = "two_usable" -> Len(cs) = 2 /\ Usable(cs[1]) /\ Usable(cs[2]) /\ cs[1].id # cs[2].id /\ cs[1].pk # cs[2].pk
+    [] shape = "usable_skipped" -> Len(cs) = 3 /\ Usable(cs[1]) /\ ~Usable(cs[2]) /\ ~Usable(cs[3])
+    [] shape = "skipped_usable" -> Len(cs) = 3 /\ ~Usable(cs[1]) /\ ~Usable(cs[2]) /\ Usable(cs[3])
+    [] OTHER -> FALSE
 \* the suite a client must use: the first supported one of the configuration (ech.go pickECHCipherSuite)
 PickSuite(c) == c.suites[CHOOSE k \in DOMAIN c.suites : /\ c.suites[k].kdf = KdfSHA256 /\ c.suites[k].aead \in AEADs
                                                         /\ \A j \in 1..(k-1) : ~(c.suites[j].kdf = KdfSHA256 /\ c.suites[j].aead \in AEADs)]
 
 \* ---------- encoders
-EncECHConfig(id, pk, aead, maxlen, pubname) ==
-  LET body == <<id>> \o U16(KemX25519) \o Vec16(pk) \o Vec16(U16(KdfSHA256) \o U16(aead)) \o <<maxlen>> \o Vec8(pubname) \o U16(0)
+EncECHConfigK(id, kem, pk, aead, maxlen, pubname) ==
+  LET body == <<id>> \o U16(kem) \o Vec16(pk) \o Vec16(U16(KdfSHA256) \o U16(aead)) \o <<maxlen>> \o Vec8(pubname) \o U16(0)
   IN U16(ExtECH) \o Vec16(body)
+EncECHConfig(id, pk, aead, maxlen, pubname) == EncECHConfigK(id, KemX25519, pk, aead, maxlen, pubname)
+\* an entry of a version this client does not know: to be skipped by its length
+EncUnknownVersionEntry(body) == U16(65034) \o Vec16(body)
 EncCfgList(cfgs) == Vec16(Flat(cfgs))
 SNIExt(name) == Ext(0, Vec16(<<0>> \o Vec16(name)))
 ECHOuterExt(kdf, aead, id, enc, payload) == Ext(ExtECH, <<0>> \o U16(kdf) \o U16(aead) \o <<id>> \o Vec16(enc) \o Vec16(payload))
